@@ -68,6 +68,7 @@ WRITERS = [
     st.tuples(st.just("assign"), VAR, RSEL, CSEL, st.sampled_from(["scalar", "scalar", "column", "ragged", "ragged-lazy", "flat"])).map(list),
     st.tuples(st.just("assign"), VAR, RSEL, CSEL, st.sampled_from(["scalar", "column", "ragged"])).map(list),
     st.tuples(st.just("fill"), VAR, st.sampled_from([0, -5])).map(list),
+    st.tuples(st.just("rowwrite"), VAR, K, K, st.sampled_from([-11, 77])).map(list),
     st.tuples(st.just("maskassign"), VAR, THR, st.just(-3)).map(list),
     st.tuples(st.just("assign-from"), VAR, VAR).map(list),
 ]
@@ -131,7 +132,8 @@ def twin_case(draw, tier):
         s = draw(INDEX_VIEW)
         s[1] = d          # always select from the newest variable
         steps.append(s)
-    op = draw(ANY_OP)
+    which = draw(st.integers(0, 3))      # every other time the operation is itself an index expression (index of an index of ...)
+    op = draw(INDEX_VIEW) if which == 0 else draw(INDEX) if which == 1 else draw(ANY_OP)
     op = list(op)
     op[1] = k             # applied to the deepest view
     steps.append(op)
